@@ -14,7 +14,7 @@ LEVEL_TEXT = ('partial. Lean 4 theorems about the deterministic wrappers around 
               'non-negative integer; both shot-noise methods reject exactly the frames with a negative or an unrepresentably large count; '
               'read noise is additive and signal-independent; a dark frame without pattern noise is floor(rate); a power-spectrum '
               'surface is zero outside its mask with mean square exactly rms^2 over its non-zero pixels for every mask shape; '
-              'the accumulation of non-negative ray deposits is non-negative, bounded by the total deposited charge, zero where no ray deposits and zero everywhere without rays (cosmic_frame_support, cosmic_frame_bounded; tie to cosmic_rays sampled); the Rule-07 frame without pattern noise is the floor of the regenerated rate; power_spectrum grid/filter/noise shapes and per-axis frequency normalisation as the source builds them (regenerated PINS: theorems about generated text that the numeric model does not consume), its mask-and-normalise tail regenerated AND consumed by the model; every function with a parameter named seed (filter on the signature) builds its generator as default_rng(seed) with the bare parameter (or hands seed on unchanged: rule07 -> dark_current) '
+              'the accumulation of non-negative ray deposits is non-negative, bounded by the total deposited charge, zero where no ray deposits and zero everywhere without rays (cosmic_frame_support, cosmic_frame_bounded; tie to cosmic_rays sampled); the Rule-07 frame without pattern noise is the floor of the regenerated rate; power_spectrum grid/filter/noise shapes and per-axis frequency normalisation as the source builds them (regenerated PINS: theorems about generated text that the numeric model does not consume), its mask-and-normalise tail regenerated AND consumed by the model, the result being independent of any positive rescaling of the filtered noise (power_spectrum_invariant_under_noise_scale); every function with a parameter named seed (filter on the signature) builds its generator as default_rng(seed) with the bare parameter (or hands seed on unchanged: rule07 -> dark_current) '
               'and touches no global generator, cache or module global: read off the source on every run (effect table with generator argument and seed-forwarding call sites). '
               'Distribution moments and "different seeds differ" are sampled assumption checks, not proved.')
 LEVEL_NOTE = ('partial by nature: means/variances and seed sensitivity are properties of NumPy\'s generators (unproven clauses, sampled).')
